@@ -331,6 +331,7 @@ class StmtMixin:
                 mode = "seq"
                 it_expr = it
             dict_view = None
+            set_iter = None
             if mode in ("enum", "seq"):
                 from .dictiter import DictView
 
@@ -344,6 +345,16 @@ class StmtMixin:
                     seq0 = self.enum_dict(seq0, env, "_seq%d" % ordn)
                 if not isinstance(seq0, V):
                     raise Unsupported("for over %s" % type(seq0).__name__)
+                set_iter = None
+                if isinstance(seq0.ty, TSet) and seq0.ty.k == TInt:
+                    # for-loop over a set[int] (added for C16): SNAPSHOT ENUMERATION in an arbitrary order, as for dict
+                    # views (dictiter.py E1/E2): a ghost list K of length n of pairwise distinct members covering exactly
+                    # the set; ghost names _seq<N>_keys / _seq<N>_pos.  The set must not change in the body (obligation
+                    # `set-unchanged` at the back edge; Python raises RuntimeError when its size changes).
+                    set_iter = (it_expr, seq0)
+                    seq0 = self.enum_set(seq0, env, "_seq%d" % ordn)
+                    env.locals["_seq%d" % ordn] = seq0
+                    it_expr = ast.Name(id="_seq%d" % ordn, ctx=ast.Load())
                 if isinstance(it_expr, ast.Call) and isinstance(seq0.ty, TList):
                     # the iterable expression is evaluated ONCE (Python semantics); iterate the bound snapshot
                     env.locals["_seq%d" % ordn] = seq0
@@ -493,6 +504,9 @@ class StmtMixin:
                         continue  # Optional narrowing (`if x is not None:`) rebinds the name to the same value
                     if not v0.t.eq(v1.t):
                         raise Unsupported("loop %d of %s: the body changes local %s, which the loop head does not havoc (add it to the loop's modifies)" % (ordn, fname, n))
+                if kind == "for" and set_iter is not None:
+                    cur_set = self.evalv(set_iter[0], env)
+                    self.ctx.oblige("%s:loop%d.set-unchanged" % (fname, ordn), "assert", cur_set.t == set_iter[1].t, site=st.lineno, note="the set iterated by the for-loop is not modified by the loop body")
                 if head_dict is not None:
                     cur_dict = self.spec_val(ast.unparse(dict_view.node), env)
                     self.ctx.oblige("%s:loop%d.dict-unchanged" % (fname, ordn), "assert", cur_dict.t == head_dict.t, site=st.lineno, note="the dict iterated by a view is not modified by the loop body")
@@ -666,8 +680,10 @@ class StmtMixin:
             raise Unsupported("with statement (several items)")
         item = st.items[0]
         ce = item.context_expr
-        if not (isinstance(ce, ast.Call) and isinstance(ce.func, ast.Name)):
+        if not (isinstance(ce, ast.Call) and isinstance(ce.func, (ast.Name, ast.Attribute))):
             raise Unsupported("with statement")
+        if isinstance(ce, ast.Call) and isinstance(ce.func, ast.Attribute):
+            return self._with_method_cm(st, item, ce, env)
         callee = self.eval(ce.func, env)
         from .model import FuncRef
 
@@ -695,6 +711,59 @@ class StmtMixin:
                 self.assign(item.optional_vars, self.eval(yv, genv) if yv is not None else NONE, env)
             self.exec_block(st.body, env)  # any PyRaise / PyReturn / PyBreak / PyContinue / PathEnd propagates: generator abandoned
             self.exec_block(fn.body[yi + 1:], genv)
+        finally:
+            self.depth -= 1
+
+    def _with_method_cm(self, st, item, ce, env):
+        """`with obj.m(args) [as name]:` (added for C16, H3Connection._get_or_create_stream) where m is a repository METHOD
+        decorated with @contextmanager of the shape
+              <statements without yield>
+              try:
+                  yield <expr>
+              finally:
+                  <cleanup without yield>
+        contextlib semantics for that shape: run the leading statements; bind the yielded value; run the with-body.
+        However the body is left - normal completion, return, break, continue (generator resumed by __exit__(None..)) or an
+        exception (thrown into the generator at the yield) - the `finally` cleanup runs exactly once and then the exit
+        continues unchanged; an exception raised BY the cleanup replaces it.  The generator body is executed inline (no
+        contract), with the receiver bound to `self`."""
+        from .model import BoundMethod
+
+        callee = self.eval(ce.func, env)
+        if not isinstance(callee, BoundMethod) or callee.cls is None:
+            raise Unsupported("with statement")
+        info = self.index.cls(callee.cls)
+        owner, fn = self.index.find_method(info, callee.name)
+        if fn is None or not any(getattr(d, "id", getattr(d, "attr", None)) == "contextmanager" for d in fn.decorator_list):
+            raise Unsupported("with statement (not a @contextmanager method)")
+        ys = [n for n in ast.walk(fn) if isinstance(n, (ast.Yield, ast.YieldFrom))]
+        body = [b for b in fn.body if not (isinstance(b, ast.Expr) and isinstance(b.value, ast.Constant))]
+        last = body[-1] if body else None
+        ok = (
+            len(ys) == 1 and isinstance(last, ast.Try) and not last.handlers and not last.orelse and len(last.body) == 1
+            and isinstance(last.body[0], ast.Expr) and isinstance(last.body[0].value, ast.Yield)
+            and not any(isinstance(n, ast.Return) for n in ast.walk(fn))
+        )
+        if not ok:
+            raise Unsupported("with statement (generator shape)")
+        args, kwargs = self.eval_args(ce, env)
+        loc = self.bind_args(fn, callee.recv, args, kwargs, owner.module, None)
+        genv = Env(loc, owner.module, owner, fn)
+        genv.contract, genv.fname, genv.anchors, genv.local_types = None, fn.name, {}, {}
+        if self.depth > 12:
+            raise Unsupported("inline depth")
+        self.depth += 1
+        try:
+            self.exec_block(body[:-1], genv)
+            yv = last.body[0].value.value
+            if item.optional_vars is not None:
+                self.assign(item.optional_vars, self.eval(yv, genv) if yv is not None else NONE, env)
+            try:
+                self.exec_block(st.body, env)
+            except (PyRaise, PyReturn, PyBreak, PyContinue):
+                self.exec_block(last.finalbody, genv)  # an exception raised here replaces the pending exit
+                raise
+            self.exec_block(last.finalbody, genv)
         finally:
             self.depth -= 1
 
